@@ -82,6 +82,55 @@ theorem foldl_slashOne_le (l : List Nat) (m : Map Oracle) : onlinePower (l.foldl
   | nil => simp
   | cons o r ih => exact Nat.le_trans (ih (slashOne m o)) (slashOne_le m o)
 
+/-- in the order of the source the old bridger's index entry is the one that is deleted -/
+theorem editIndex_eq (m : Map Nat) (old b o : Nat) : editIndex m old b o = (m.del old).set b o := by
+  have : editBridgerDeletesOldIndexFirst = true := by decide
+  simp [editIndex, this]
+
+/-! ## `applyRefresh` only touches the recorded total -/
+
+theorem applyRefresh_eq (r : RefreshRule) (pos : Bool) (old s' : State) :
+    ∃ t, applyRefresh r pos old s' = { s' with lastTotalPower := t } := by
+  cases r
+  · exact ⟨_, rfl⟩
+  · exact ⟨_, rfl⟩
+  · cases pos
+    · exact ⟨s'.lastTotalPower, rfl⟩
+    · exact ⟨_, rfl⟩
+  · exact ⟨s'.lastTotalPower, rfl⟩
+  · exact ⟨s'.lastTotalPower, rfl⟩
+
+section
+variable (r : RefreshRule) (pos : Bool) (old s' : State)
+@[simp] theorem applyRefresh_oracles : (applyRefresh r pos old s').oracles = s'.oracles := by
+  obtain ⟨t, h⟩ := applyRefresh_eq r pos old s'; rw [h]
+@[simp] theorem applyRefresh_byBridger : (applyRefresh r pos old s').byBridger = s'.byBridger := by
+  obtain ⟨t, h⟩ := applyRefresh_eq r pos old s'; rw [h]
+@[simp] theorem applyRefresh_byExt : (applyRefresh r pos old s').byExt = s'.byExt := by
+  obtain ⟨t, h⟩ := applyRefresh_eq r pos old s'; rw [h]
+@[simp] theorem applyRefresh_proposal : (applyRefresh r pos old s').proposal = s'.proposal := by
+  obtain ⟨t, h⟩ := applyRefresh_eq r pos old s'; rw [h]
+@[simp] theorem applyRefresh_params : (applyRefresh r pos old s').params = s'.params := by
+  obtain ⟨t, h⟩ := applyRefresh_eq r pos old s'; rw [h]
+@[simp] theorem applyRefresh_lastObserved : (applyRefresh r pos old s').lastObserved = s'.lastObserved := by
+  obtain ⟨t, h⟩ := applyRefresh_eq r pos old s'; rw [h]
+@[simp] theorem applyRefresh_lastNonce : (applyRefresh r pos old s').lastNonce = s'.lastNonce := by
+  obtain ⟨t, h⟩ := applyRefresh_eq r pos old s'; rw [h]
+@[simp] theorem applyRefresh_atts : (applyRefresh r pos old s').atts = s'.atts := by
+  obtain ⟨t, h⟩ := applyRefresh_eq r pos old s'; rw [h]
+@[simp] theorem applyRefresh_pending : (applyRefresh r pos old s').pending = s'.pending := by
+  obtain ⟨t, h⟩ := applyRefresh_eq r pos old s'; rw [h]
+@[simp] theorem applyRefresh_observedLog : (applyRefresh r pos old s').observedLog = s'.observedLog := by
+  obtain ⟨t, h⟩ := applyRefresh_eq r pos old s'; rw [h]
+@[simp] theorem applyRefresh_executedLog : (applyRefresh r pos old s').executedLog = s'.executedLog := by
+  obtain ⟨t, h⟩ := applyRefresh_eq r pos old s'; rw [h]
+@[simp] theorem applyRefresh_retired : (applyRefresh r pos old s').retired = s'.retired := by
+  obtain ⟨t, h⟩ := applyRefresh_eq r pos old s'; rw [h]
+end
+
+/-- the placement the theorems about the recorded total need: recomputed unconditionally after the record is stored -/
+theorem applyRefresh_afterStore (pos : Bool) (old s' : State) : applyRefresh .afterStore pos old s' = refresh s' := rfl
+
 /-! ## tally -/
 
 theorem tally_ge (m : Map Oracle) (req : Nat) (vs : List Nat) (acc : Nat) (h : tally m req vs acc = true) :
@@ -213,7 +262,7 @@ theorem tryAttest_true (s : State) (att : Att) (kind : Kind)
     s'.executedLog = s.executedLog ∧ s'.lastNonce = s.lastNonce ∧ s'.oracles = s.oracles ∧
     s'.lastTotalPower = s.lastTotalPower ∧ s'.byBridger = s.byBridger ∧ s'.byExt = s.byExt ∧
     s'.proposal = s.proposal ∧ s'.params = s.params := by
-  cases kind <;> simp [tryAttest, h]
+  cases kind <;> simp [tryAttest, h, observeSetsLastObserved, observeMarksObserved]
 
 /-! ## C01 invariant -/
 
@@ -320,33 +369,103 @@ theorem inv_claim (s : State) (w i n h : Nat) (k : Kind) (hI : Inv s) : Inv (cla
   repeat' split
   all_goals first | exact hI | exact inv_attest _ _ _ _ _ hI
 
-theorem inv_exec (s : State) (n : Nat) (f : Bool) (hI : Inv s) : Inv (execStep s n f).1 := by
+/-! ## deferred execution with re-entrancy -/
+
+/-- the exec step only changes the parked claims and the execution log -/
+theorem exec_frame (s : State) (n : Nat) (o : Outcome) (c : Calls) :
+    ∃ P L, (execStep s n o c).1 = { s with pending := P, executedLog := L } := by
   unfold execStep
-  repeat' split
+  split
+  · exact ⟨s.pending, s.executedLog, rfl⟩
+  · split
+    · exact ⟨s.pending, s.executedLog, rfl⟩
+    · exact ⟨_, _, rfl⟩
+
+/-- the part of `Inv` that talks about the parked claims and the execution log, relative to a last observed nonce -/
+structure InvP (lo : Nat) (p : Px) : Prop where
+  pendR : ∀ n ∈ p.pending, 1 ≤ n ∧ n ≤ lo
+  execR : ∀ n ∈ p.log, 1 ≤ n ∧ n ≤ lo
+  execN : p.log.Nodup
+  pendX : ∀ n ∈ p.pending, n ∉ p.log
+
+theorem mem_delPending {l : List Nat} {n m : Nat} (h : m ∈ delPending l n) : m ∈ l := by
+  unfold delPending at h
+  split at h
+  · exact (List.mem_filter.mp h).1
+  · exact h
+
+theorem not_mem_delPending (hd : execDeletesPending = true) (l : List Nat) (n : Nat) : n ∉ delPending l n := by
+  simp [delPending, hd]
+
+/-- entering a call for a parked nonce with the entry deleted first: the handler's effects are logged once, the nonce is
+no longer parked -/
+theorem invP_enter (hd : execDeletesPending = true) {lo : Nat} {p : Px} {n : Nat} (hI : InvP lo p) (hp : n ∈ p.pending) :
+    InvP lo { pending := delPending p.pending n, log := p.log ++ [n] } := by
+  refine ⟨?_, ?_, ?_, ?_⟩
+  · intro m hm
+    exact hI.pendR m (mem_delPending hm)
+  · intro m hm
+    rcases List.mem_append.mp hm with h | h
+    · exact hI.execR m h
+    · simp at h; subst h; exact hI.pendR m hp
+  · simp only []
+    rw [List.nodup_append]
+    refine ⟨hI.execN, by simp, ?_⟩
+    intro a ha b hb
+    simp at hb; subst hb
+    intro hab; subst hab
+    exact hI.pendX a hp ha
+  · intro m hm hc
+    rcases List.mem_append.mp hc with h | h
+    · exact hI.pendX m (mem_delPending hm) h
+    · simp at h; subst h; exact not_mem_delPending hd _ _ hm
+
+/-- in the delete-before-handler order every forest of (re-entrant, nested, failing, refunded) `ExecuteClaim` calls keeps
+the invariant: the log stays duplicate-free and disjoint from the parked claims -/
+theorem invP_execCalls (hd : execDeletesPending = true) (hc : execChecksPending = true) (lo : Nat) (c : Calls) (p : Px)
+    (hI : InvP lo p) : InvP lo (execCallsWith true p c) := by
+  induction c generalizing p with
+  | nil => exact hI
+  | call n o inner next ihI ihN =>
+    unfold execCallsWith
+    apply ihN
+    simp only [hc, Bool.true_and, if_true]
+    split
+    · exact hI
+    · rename_i hp
+      have hp' : n ∈ p.pending := by simpa using hp
+      cases o with
+      | fail => exact hI
+      | refund => exact invP_enter hd hI hp'
+      | ok => exact ihI _ (invP_enter hd hI hp')
+
+theorem inv_exec (s : State) (n : Nat) (o : Outcome) (c : Calls) (hI : Inv s) : Inv (execStep s n o c).1 := by
+  unfold execStep
+  split
   · exact hI
-  · exact hI
-  · rename_i hp hf
-    have hp' : n ∈ s.pending := by simpa using hp
-    refine ⟨hI.logC, hI.obsIn, ?_, ?_, ?_, ?_⟩
-    · intro m hm
-      exact hI.pendR m (List.mem_filter.mp hm).1
-    · intro m hm
-      rcases List.mem_append.mp hm with h | h
-      · exact hI.execR m h
-      · simp at h; subst h; exact hI.pendR m hp'
-    · simp only []
-      rw [List.nodup_append]
-      refine ⟨hI.execN, by simp, ?_⟩
-      intro a ha b hb
-      simp at hb; subst hb
-      intro hab; subst hab
-      exact hI.pendX a hp' ha
-    · intro m hm
-      have hm' := List.mem_filter.mp hm
-      intro hc
-      rcases List.mem_append.mp hc with h | h
-      · exact hI.pendX m hm'.1 h
-      · simp at h; subst h; simp at hm'
+  · split
+    · exact hI
+    · have hdf : execDeletesBeforeHandler = true := by decide
+      have hP : InvP s.lastObserved { pending := s.pending, log := s.executedLog } := ⟨hI.pendR, hI.execR, hI.execN, hI.pendX⟩
+      have := invP_execCalls (by decide) (by decide) s.lastObserved (.call n o c .nil) _ hP
+      simp only [execCalls, hdf]
+      exact ⟨hI.logC, hI.obsIn, this.pendR, this.execR, this.execN, this.pendX⟩
+
+/-- calls only consume parked claims (delete-before-handler order): nothing becomes parked by executing -/
+theorem execCalls_pending_subset (c : Calls) (p : Px) : ∀ m ∈ (execCallsWith true p c).pending, m ∈ p.pending := by
+  induction c generalizing p with
+  | nil => intro m hm; exact hm
+  | call n o inner next ihI ihN =>
+    intro m hm
+    unfold execCallsWith at hm
+    have := ihN _ m hm
+    simp only [if_true] at this
+    split at this
+    · exact this
+    · cases o with
+      | fail => exact this
+      | refund => exact mem_delPending this
+      | ok => exact mem_delPending (ihI _ m this)
 
 theorem inv_step (s : State) (op : Op) (hI : Inv s) : Inv (step s op).1 := by
   cases op with
@@ -357,7 +476,7 @@ theorem inv_step (s : State) (op : Op) (hI : Inv s) : Inv (step s op).1 := by
   | unbond o u bal d => exact inv_of_core (unbond_core s o u bal d) hI
   | gov l d => exact inv_of_core (gov_core s l d).1 hI
   | endBlock l r => exact inv_of_core (endBlock_core s l r).1 hI
-  | exec n f => exact inv_exec s n f hI
+  | exec n o c => exact inv_exec s n o c hI
 
 theorem inv_run (s : State) (ops : List Op) (hI : Inv s) : Inv (run s ops) := by
   induction ops generalizing s with
@@ -400,17 +519,17 @@ theorem totalOk_step (s : State) (op : Op) (hT : TotalOk s) : TotalOk (step s op
     simp only [step]
     rw [this.1, this.2.1]; exact hT
   | bond o b e a d =>
+    have hr : bondRefreshRule = .afterStore := by decide
     simp only [step]
     unfold bondStep
     repeat' split
-    all_goals first | exact hT | simp [refresh] | skip
-    all_goals (rename_i hr; simp [refreshOnBond] at hr)
+    all_goals first | exact hT | simp [hr, applyRefresh, refresh]
   | addDelegate o a d =>
+    have hr : addDelegateRefreshRule = .afterStore := by decide
     simp only [step]
     unfold addDelegateStep addDelegateTo
     repeat' split
-    all_goals first | exact hT | simp [refresh] | skip
-    all_goals (rename_i hr; simp [refreshOnAddDelegate] at hr)
+    all_goals first | exact hT | simp [hr, applyRefresh, refresh]
   | editBridger o b =>
     simp only [step]
     unfold editBridgerStep
@@ -437,11 +556,10 @@ theorem totalOk_step (s : State) (op : Op) (hT : TotalOk s) : TotalOk (step s op
     split
     · simp [refresh]
     · exact Nat.le_trans (foldl_slashOne_le l s.oracles) hT
-  | exec n f =>
+  | exec n o c =>
     simp only [step]
-    unfold execStep
-    repeat' split
-    all_goals exact hT
+    obtain ⟨P, L, h⟩ := exec_frame s n o c
+    rw [h]; exact hT
 
 theorem totalOk_run (s : State) (ops : List Op) (hT : TotalOk s) : TotalOk (run s ops) := by
   induction ops generalizing s with
@@ -622,10 +740,10 @@ theorem binv_step (s : State) (op : Op) (hB : BInv s) : BInv (step s op).1 := by
     repeat' split
     all_goals first | exact hB | skip
     all_goals
-      rename_i hno _ _ _ _ _ _
+      rename_i hno _ _ _ _ _
       have hno' : s.oracles.get o = none := by simpa using hno
       intro b' a' hg
-      simp only [refresh] at hg ⊢
+      simp only [applyRefresh_byBridger, applyRefresh_oracles] at hg ⊢
       by_cases hb : b = b'
       · subst hb
         rw [get_set_self] at hg; cases hg
@@ -640,14 +758,14 @@ theorem binv_step (s : State) (op : Op) (hB : BInv s) : BInv (step s op).1 := by
     all_goals first | exact hB | skip
     all_goals
       rename_i orc hg _ _ _ _ _
-      exact binv_of_BP (s := s) rfl (BP_set s.oracles o orc _ hg rfl) hB
+      exact binv_of_BP (s := s) (by simp) (by simp only [applyRefresh_oracles]; exact BP_set s.oracles o orc _ hg rfl) hB
   | editBridger o b =>
     simp only [step]; unfold editBridgerStep
     repeat' split
     all_goals first | exact hB | skip
     rename_i orc hgo _ hneq _
     intro b' a' hg
-    simp only [] at hg ⊢
+    simp only [editIndex_eq] at hg ⊢
     by_cases hb : b = b'
     · subst hb
       rw [get_set_self] at hg; cases hg
@@ -686,10 +804,10 @@ theorem binv_step (s : State) (op : Op) (hB : BInv s) : BInv (step s op).1 := by
     simp only [step]; unfold endBlockStep
     split
     all_goals exact binv_of_BP (s := s) rfl (BP_foldl_slashOne l s.oracles) hB
-  | exec n f =>
-    simp only [step]; unfold execStep
-    repeat' split
-    all_goals exact hB
+  | exec n o c =>
+    simp only [step]
+    obtain ⟨P, L, h⟩ := exec_frame s n o c
+    rw [h]; exact hB
 
 theorem binv_run (s : State) (ops : List Op) (hB : BInv s) : BInv (run s ops) := by
   induction ops generalizing s with
@@ -970,7 +1088,7 @@ theorem vinv_step (s : State) (op : Op) (hop : opOk s op = true) (hV : VInv s) :
     have := hV.r1 r hr
     unfold bondStep
     repeat' split
-    all_goals first | exact this | (simp only [refresh]; rw [get_set_ne _ _ _ _ hne]; exact this)
+    all_goals first | exact this | (simp only [applyRefresh_oracles]; rw [get_set_ne _ _ _ _ hne]; exact this)
   | addDelegate o a d =>
     simp only [step]
     refine vinv_frame (core_atts (addDelegate_core s o a d).1) (addDelegate_core s o a d).2 (addDelegate_retired s o a d) ?_ hV
@@ -979,6 +1097,7 @@ theorem vinv_step (s : State) (op : Op) (hop : opOk s op = true) (hV : VInv s) :
     all_goals first | exact NoNew_refl _ | skip
     all_goals
       rename_i orc hg _ _ _ _ _
+      simp only [applyRefresh_oracles]
       exact NoNew_set s.oracles o orc _ hg
   | editBridger o b =>
     simp only [step]
@@ -1031,11 +1150,10 @@ theorem vinv_step (s : State) (op : Op) (hop : opOk s op = true) (hV : VInv s) :
     unfold endBlockStep
     split
     all_goals exact NoNew_foldl_slashOne l s.oracles
-  | exec n f =>
+  | exec n o c =>
     simp only [step]
-    unfold execStep
-    repeat' split
-    all_goals exact ⟨hV.v1, hV.v2, hV.r1⟩
+    obtain ⟨P, L, h⟩ := exec_frame s n o c
+    rw [h]; exact ⟨hV.v1, hV.v2, hV.r1⟩
 
 theorem vinv_init (p : Params) : VInv (init p) := by
   refine ⟨?_, ⟨?_, ?_⟩, ?_⟩ <;> (intro a ha; simp [init] at ha)
@@ -1069,10 +1187,10 @@ theorem retired_step (s : State) (op : Op) (hk : unbondDeletesLastNonce = false)
     all_goals simp_all
   | gov l d => simp only [step]; rw [gov_retired]; exact h
   | endBlock l r => simp only [step]; rw [endBlock_retired]; exact h
-  | exec n f =>
-    simp only [step]; unfold execStep
-    repeat' split
-    all_goals exact h
+  | exec n o c =>
+    simp only [step]
+    obtain ⟨P, L, h'⟩ := exec_frame s n o c
+    rw [h']; exact h
 
 theorem noRebond_of_kept (hk : unbondDeletesLastNonce = false) (s : State) (ops : List Op) (h : s.retired = []) :
     noRebond s ops = true := by
@@ -1081,5 +1199,86 @@ theorem noRebond_of_kept (hk : unbondDeletesLastNonce = false) (s : State) (ops 
   | cons op r ih =>
     have hn := ih _ (retired_step s op hk h)
     cases op <;> simp_all [noRebond]
+
+/-! ## the two ghost logs only grow from one operation to the next -/
+
+theorem run_append (s : State) (a b : List Op) : run s (a ++ b) = run (run s a) b := by
+  induction a generalizing s with
+  | nil => rfl
+  | cons op r ih => exact ih _
+
+theorem attest_logs (s : State) (o n h : Nat) (kind : Kind) :
+    (∃ l, (attest s o n h kind).observedLog = s.observedLog ++ l) ∧ (attest s o n h kind).executedLog = s.executedLog := by
+  unfold attest
+  simp only []
+  split
+  · cases ht : tally s.oracles (required s.lastTotalPower) (voteAtt s o n h).votes 0
+    · rw [tryAttest_false _ _ _ (by simpa using ht)]; exact ⟨⟨[], by simp⟩, rfl⟩
+    · obtain ⟨_, _, h3, _, h5, _⟩ := tryAttest_true { s with atts := setAtt s.atts (voteAtt s o n h) } (voteAtt s o n h) kind (by simpa using ht)
+      exact ⟨⟨_, h3⟩, h5⟩
+  · exact ⟨⟨[], by simp⟩, rfl⟩
+
+/-- every forest of calls extends the execution log it starts from (roll-backs inside the forest never reach below it) -/
+theorem execCalls_log_extends (df : Bool) (c : Calls) (p : Px) : ∃ l, (execCallsWith df p c).log = p.log ++ l := by
+  induction c generalizing p with
+  | nil => exact ⟨[], by simp [execCallsWith]⟩
+  | call n o inner next ihI ihN =>
+    unfold execCallsWith
+    simp only []
+    split
+    · exact ihN _
+    · cases o with
+      | fail => exact ihN _
+      | refund =>
+        obtain ⟨l, hl⟩ := ihN { pending := delPending p.pending n, log := p.log ++ [n] }
+        exact ⟨[n] ++ l, by rw [hl]; simp⟩
+      | ok =>
+        obtain ⟨l1, h1⟩ := ihI { pending := if df = true then delPending p.pending n else p.pending, log := p.log ++ [n] }
+        obtain ⟨l2, h2⟩ := ihN { execCallsWith df { pending := if df = true then delPending p.pending n else p.pending, log := p.log ++ [n] } inner with
+          pending := if df = true then (execCallsWith df { pending := if df = true then delPending p.pending n else p.pending, log := p.log ++ [n] } inner).pending
+            else delPending (execCallsWith df { pending := if df = true then delPending p.pending n else p.pending, log := p.log ++ [n] } inner).pending n }
+        refine ⟨[n] ++ l1 ++ l2, ?_⟩
+        rw [h2]; simp only []; rw [h1]; simp
+
+theorem logs_step (s : State) (op : Op) :
+    (∃ l, (step s op).1.observedLog = s.observedLog ++ l) ∧ (∃ l, (step s op).1.executedLog = s.executedLog ++ l) := by
+  have core : ∀ s' : State, Core s' = Core s →
+      (∃ l, s'.observedLog = s.observedLog ++ l) ∧ (∃ l, s'.executedLog = s.executedLog ++ l) := by
+    intro s' h
+    simp only [Core, Prod.mk.injEq] at h
+    exact ⟨⟨[], by simp [h.2.2.2.1]⟩, ⟨[], by simp [h.2.2.2.2]⟩⟩
+  cases op with
+  | claim w i n h k e =>
+    simp only [step]
+    by_cases hok : (claimStep s w i n h k).2 = .ok
+    · obtain ⟨a, _, _, _, _, _, _, _, heq⟩ := claim_ok s w i n h k hok
+      rw [heq]
+      obtain ⟨h1, h2⟩ := attest_logs s a n h k
+      exact ⟨h1, ⟨[], by simp [h2]⟩⟩
+    · rw [claim_not_ok s w i n h k hok]; exact ⟨⟨[], by simp⟩, ⟨[], by simp⟩⟩
+  | bond o b e a d => exact core _ (bond_core s o b e a d).1
+  | addDelegate o a d => exact core _ (addDelegate_core s o a d).1
+  | editBridger o b => exact core _ (editBridger_core s o b).1
+  | unbond o u bal d => exact core _ (unbond_core s o u bal d)
+  | gov l d => exact core _ (gov_core s l d).1
+  | endBlock l r => exact core _ (endBlock_core s l r).1
+  | exec n o c =>
+    simp only [step]
+    unfold execStep
+    split
+    · exact ⟨⟨[], by simp⟩, ⟨[], by simp⟩⟩
+    · split
+      · exact ⟨⟨[], by simp⟩, ⟨[], by simp⟩⟩
+      · obtain ⟨l, hl⟩ := execCalls_log_extends execDeletesBeforeHandler (.call n o c .nil) { pending := s.pending, log := s.executedLog }
+        exact ⟨⟨[], by simp⟩, ⟨l, by simp only [execCalls]; rw [hl]⟩⟩
+
+theorem logs_run (s : State) (ops : List Op) :
+    (∃ l, (run s ops).observedLog = s.observedLog ++ l) ∧ (∃ l, (run s ops).executedLog = s.executedLog ++ l) := by
+  induction ops generalizing s with
+  | nil => exact ⟨⟨[], by simp [run]⟩, ⟨[], by simp [run]⟩⟩
+  | cons op r ih =>
+    obtain ⟨⟨l1, h1⟩, ⟨l2, h2⟩⟩ := logs_step s op
+    obtain ⟨⟨l3, h3⟩, ⟨l4, h4⟩⟩ := ih (step s op).1
+    exact ⟨⟨l1 ++ l3, by simp only [run]; rw [h3, h1]; simp⟩, ⟨l2 ++ l4, by simp only [run]; rw [h4, h2]; simp⟩⟩
 
 end FxVerif.Proofs.C01
